@@ -331,7 +331,11 @@ impl Check for SmartAccount {
         vec!["probe.accepted", "probe.rejected", "probe.max_context_rules_reached", "probe.max_signers_reached", "probe.max_policies_reached"]
     }
     fn property_of(&self, check: &str) -> std::vec::Vec<&'static str> {
-        if check.starts_with("rules.") {
+        if check.starts_with("rules.manage_") {
+            // outcome of add / remove / rename of rules, signers and policies (duplicates, absent items, limits,
+            // admin authorization): the registry property, and the rule set C03 is evaluated over
+            vec!["C03", "C20"]
+        } else if check.starts_with("rules.") {
             vec!["C20"]
         } else {
             vec!["C03"]
@@ -645,7 +649,7 @@ impl Check for SmartAccount {
             if let Some(g) = got {
                 st.tx("manage", g);
                 if g != exp {
-                    return Err(violation(if g { "refine.must_fail" } else { "live.must_succeed" }, "manage", i, format!("{s:?}: real {g} model {exp}; rules {:?}", m.rules)));
+                    return Err(violation(if g { "rules.manage_must_fail" } else { "rules.manage_must_succeed" }, "manage", i, format!("{s:?}: real {g} model {exp}; rules {:?}", m.rules)));
                 }
             }
             // registry view agrees (cheap: count + each rule's stored definition)
